@@ -333,7 +333,8 @@ fn wire_body(c: &WireCase, ch: &Chooser) -> Outcome {
         Some(v) => std::str::from_utf8(&v).ok().and_then(Enc::from_name),
     };
     let (want_resp, _) = expected_response(&c.call);
-    judge_frames(&mut o, "response", &cap.resp_body.bytes(), &want_resp, announced_resp, Some(announced_resp.is_some() as u8));
+    let resp_flag = if c.call.script.disable_compression { None } else { Some(announced_resp.is_some() as u8) };
+    judge_frames(&mut o, "response", &cap.resp_body.bytes(), &want_resp, announced_resp, resp_flag);
     o
 }
 
